@@ -274,7 +274,17 @@ pub fn eval_case(case: &Case, stats: &mut Counters) -> Option<Violation> {
         Case::RoundTrip { matrix, padded, shuffle } => {
             let m = matrix_from_own_alist(matrix)?;
             // ones inserted in a random order: the text must not depend on it
-            let sm = if *shuffle == 0 { m.to_sparse() } else { m.to_sparse_shuffled(*shuffle) };
+            // (seeds >= 2^40: the same matrix reached through an editing history — clear/set/
+            // toggle/remove — instead of plain inserts; seeded change C08-r4-3 caches the maximum
+            // weights and forgets to refresh one of them in clear_row / clear_col)
+            let sm = if *shuffle == 0 {
+                m.to_sparse()
+            } else if *shuffle >= 1 << 40 {
+                stats.inc("matrix reached through an editing history");
+                m.to_sparse_via_history(*shuffle)
+            } else {
+                m.to_sparse_shuffled(*shuffle)
+            };
             let mut w = FaultyWriter::new(None, None);
             match write_with(&sm, *padded, &mut w) {
                 Err(p) => return Some(Violation::new("writer-panic", format!("writing a {}x{} matrix ({}) panicked: {}", m.r, m.c, if *padded { "padded" } else { "unpadded" }, p))),
@@ -569,6 +579,7 @@ pub fn main(opts: &Opts) -> ! {
         for padded in [true, false] {
             run(Case::RoundTrip { matrix: own.clone(), padded, shuffle: 0 }, &mut c, &mut fails);
             run(Case::RoundTrip { matrix: own.clone(), padded, shuffle: 1 + g.next() % 1_000_000 }, &mut c, &mut fails);
+            run(Case::RoundTrip { matrix: own.clone(), padded, shuffle: (1 << 40) + g.next() % 1_000_000 }, &mut c, &mut fails);
             run(Case::OwnText { matrix: own.clone(), padded }, &mut c, &mut fails);
             // writer faults: every write call, every byte budget
             let sm = m.to_sparse();
